@@ -92,6 +92,10 @@ def composed_examples(cls, count=8):
         from vf.gen import der, seeds  # pylint: disable=import-outside-toplevel
         for data in [bytes(b) for b in seeds.seeds_for(cls) if 300 < len(b) <= 4096][:4]:
             out = out + [variant for variant in der.certificate_variants(data) if variant not in out]
+    if ref.endswith((':SshHostKeyRSA', ':SshHostKeyDSS', ':SshHostPublicKeyVariant')):
+        from vf.gen import seeds  # pylint: disable=import-outside-toplevel
+        for data in [bytes(b) for b in seeds.seeds_for(cls) if len(b) <= 1200][:6]:
+            out = out + [variant for variant in ssh_mpint_padded_variants(data) if variant not in out]
     # reference-encoded models (independent of compose(): what the library cannot compose still becomes an input)
     from vf.gen import refseeds  # pylint: disable=import-outside-toplevel
     out = out + [wire for wire in refseeds.for_class(cls) if wire not in out]
@@ -125,3 +129,21 @@ def ber_length_variants(message):
     return [tag + b'\x81' + bytes([len(body)]) + body,
             tag + b'\x84' + len(body).to_bytes(4, 'big') + body,
             tag + b'\x80' + body + b'\x00\x00']
+
+
+def ssh_mpint_padded_variants(blob):
+    """An ssh-rsa / ssh-dss public key blob with its first mpint spelled non-minimally (two superfluous leading zero
+    octets): RFC 4251 forbids a sender to do that, receivers commonly tolerate it - and then hold an object equal to
+    the one parsed from the minimal spelling."""
+    if len(blob) < 12:
+        return []
+    name_length = int.from_bytes(blob[:4], 'big')
+    name = blob[4:4 + name_length]
+    if name not in (b'ssh-rsa', b'ssh-dss') or len(blob) < 8 + name_length:
+        return []
+    position = 4 + name_length
+    length = int.from_bytes(blob[position:position + 4], 'big')
+    if position + 4 + length > len(blob) or length == 0 or blob[position + 4] & 0x80:
+        return []
+    padded = blob[:position] + (length + 2).to_bytes(4, 'big') + b'\x00\x00' + blob[position + 4:]
+    return [padded]
